@@ -241,7 +241,7 @@ func c09modules() *ugo.ModuleMap {
 
 // placement runs one (workload, point, nth, action, ordering) and judges it.
 func (m c09) placement(c *core.Ctx, wl c09wl, point string, nth int, action string, race bool) {
-	if c09stuck.Load() {
+	if c09stuck.Load() || c09abortBlocked.Load() {
 		c.Count("skipped_after_unstoppable_run")
 		return
 	}
@@ -307,7 +307,7 @@ func (m c09) placement(c *core.Ctx, wl c09wl, point string, nth int, action stri
 			return
 		}
 		queued = nil
-		for i := 0; i < 20000; i++ {
+		for i := 0; i < 20000 && !c09abortBlocked.Load(); i++ {
 			select {
 			case <-q:
 				c.Count("queued_runs_stopped")
@@ -370,7 +370,7 @@ func (m c09) placement(c *core.Ctx, wl c09wl, point string, nth int, action stri
 			}
 		}()
 		stopped := false
-		for i := 0; i < 200000 && !stopped; i++ {
+		for i := 0; i < 200000 && !stopped && !c09abortBlocked.Load(); i++ {
 			if counter.Load() >= 3 {
 				if wl.eval {
 					pcancel()
@@ -385,6 +385,11 @@ func (m c09) placement(c *core.Ctx, wl c09wl, point string, nth int, action stri
 			}
 		}
 		pcancel()
+		if c09abortBlocked.Load() {
+			c.Violation("C09|abort-blocks|"+wl.name+"+prior|first-run", fmt.Sprintf("VM.Abort does not return (5 s) when called to stop the first run of workload %s: the script is never told to stop", wl.name), c09wit{Workload: wl.name, Prior: true, Point: point, Action: action, Why: "Abort blocks while stopping the prior run"})
+			c09stuck.Store(true)
+			return
+		}
 		if !stopped {
 			for i := 0; i < 20000 && !stopped; i++ {
 				c09abort(vm)
@@ -436,7 +441,7 @@ func (m c09) placement(c *core.Ctx, wl c09wl, point string, nth int, action stri
 		return c09wit{Workload: wl.name, Prior: wl.prior, Point: point, Nth: nth, Action: action, Order: order, Why: why, Trace: tr, Advance: adv, Err: es}
 	}
 	rescue := func() {
-		for i := 0; i < 20000; i++ {
+		for i := 0; i < 20000 && !c09abortBlocked.Load(); i++ {
 			c09abort(vm)
 			cancel()
 			select {
@@ -492,7 +497,10 @@ poll:
 			break poll
 		default:
 			adv = counter.Load() - nA
-			if adv > wl.bound {
+			// under Eval the cancellation reaches the VM through another goroutine (select on ctx.Done, then Abort): how
+			// many iterations pass until that goroutine is scheduled is not bounded by instructions (a loaded machine showed
+			// 2 x the bound once): those workloads get 100 x the bound before "lost" is decided ahead of the deadline
+			if adv > wl.bound && !wl.eval || adv > 100*wl.bound {
 				lost = true
 				rescue()
 				break poll
@@ -521,7 +529,7 @@ poll:
 	}
 	adv = counter.Load() - nA
 	stopQueued()
-	if c09stuck.Load() {
+	if c09stuck.Load() || c09abortBlocked.Load() {
 		return
 	}
 	if lost {
@@ -626,7 +634,7 @@ func (m c09) sleepProbe(c *core.Ctx, dur string, mode string) {
 }
 
 func (m c09) stress(c *core.Ctx, wl c09wl, spin int) {
-	if c09stuck.Load() {
+	if c09stuck.Load() || c09abortBlocked.Load() {
 		c.Count("skipped_after_unstoppable_run")
 		return
 	}
@@ -909,7 +917,7 @@ func (m c09) Run(c *core.Ctx) {
 			if !c.Begin(func() string { return "sleep probe " + dur + " " + mode }) {
 				continue
 			}
-			if c09stuck.Load() {
+			if c09stuck.Load() || c09abortBlocked.Load() {
 				continue
 			}
 			m.sleepProbe(c, dur, mode)
